@@ -19,7 +19,7 @@ ERROR_HEAD = re.compile(
     r"Conditional jump or move depends on uninitialised|Syscall param .* (uninitialised|unaddressable)|"
     r"Source and destination overlap|Jump to the invalid address|Process terminating with default action of signal|"
     r"Argument '.*' of function .* has a fishy|.* contains unaddressable byte)")
-NATIVE_FRAME = re.compile(r"libcrypto|_ctypes|libffi|ffi_call")
+NATIVE_FRAME = re.compile(r"libcrypto|_ctypes|libffi|ffi_call|\((cfield|callproc|callbacks|stgdict)\.c:")
 
 
 def parse_log(text):
